@@ -94,6 +94,17 @@ def gen(rng, n):
             # a fault at the end of one lateral: the junction and the other laterals stay energised behind the reclosed breaker
             leaves = [l.name for i, l in enumerate(ps.lines) if i not in set(spec["feeders"][0]["parent"])]
             case["faults"] = {str(rng.randint(1, 2)): [["line", rng.choice(leaves), str(rng.choice([F(2), F(3)]))]]}
+        elif j % 10 == 0:
+            # targeted: storage as the only source of an island - a microgrid with a battery, cut off from the feed together with
+            # (part of) its feeder, or on its own
+            while not spec.get("mg"):
+                spec = gen_spec(rng)
+            spec["mg"]["mode"] = rng.choice(["full", "limited", "survival"])
+            spec["mg"]["battery"] = spec["mg"].get("battery") or {"p": "1", "q": "1", "e": "2", "smin": "1/10", "smax": "1", "eta": "1"}
+            case["spec"] = spec
+            ps = net.build(dict(spec, exact=False))
+            host_f = spec["mg"]["host"][0]
+            case["faults"] = {str(rng.randint(1, 2)): [["line", rng.choice([f"F{host_f}L0", "ML0"]), "3"]]}
         else:
             case["faults"] = acct.rand_faults(rng, ps, n_inc, ("line", "trafo"), nmax=3)
         cases.append(case)
